@@ -353,8 +353,11 @@ class Prop(Check):
             "type conformance, uniqueness or the builtins fallback decides the outcome")
     MODELLED = ("hand-modelled: model.py get_children (Link.follow/getChildren), scoping/providers.py PlainName.__call__ "
                 "multi_metamodel_support branch (Link.plainName), model.py resolve_one_step builtins fallback / Unknown "
-                "object / single pass over parser._crossrefs (Link.resolveRef/resolveAll); conformance "
-                "(textx_isinstance) is a parameter of the model, instantiated with the grammar's declared alternatives; "
+                "object / single pass over parser._crossrefs (Link.resolveRef/resolveAll) and the same pass with its "
+                "stores — setattr / list insert before the next lookup — (Link.resolveAllSt/storeRef/readObj, compared "
+                "with the attribute values of the loaded model); conformance (textx_isinstance) is a parameter of the "
+                "model, instantiated with the grammar's declared alternatives and cross-checked per case against the "
+                "C03 textx_isinstance model (Link.confOfGrammar); an unmatched optional name=ID is the name value ''; "
                 "name values (str / int / float / bool) are encoded as strings injectively modulo Python equality; "
                 "tie X: resolved targets by object identity, failing reference and error kind, direct provider calls; "
                 "not exhibited: user __eq__ overrides, names of unhashable type, mixed numeric name types in one "
